@@ -563,7 +563,9 @@ impl Property for C18 {
     fn rule(&self) -> String {
         "Seeded histories of 2-12 messages through ONE writer instance (GenericSingleObjectWriter with capacity 0/1/64, or \
          SpecificSingleObjectWriter::{write_ref, write, write_value} over the serde corpus): conforming values of varying encoded \
-         length, validation-rejected values, values that validate but fail inside the encoder, and sinks that fail or accept short. \
+         length, validation-rejected values, values that validate but fail inside the encoder, sinks that fail or accept short, and \
+         (typed writers, which are used through a shared reference) sinks that panic with the unwind caught by the caller; for the \
+         corpus type Flat the same run also creates a typed writer for a second Rust type whose schema has the same full name. \
          Every Ok call must have produced exactly C3 01 | LE64(CRC-64-AVRO(canonical form)) | reference encoding in its own sink and \
          round-trip through every reader. Per history the header damage set is exhaustive: 80 single-bit flips, truncations 0..9, a \
          foreign schema's header; every reader must reject without requesting a byte past the header. distinct_nontrivial counts \
@@ -583,7 +585,7 @@ impl Property for C18 {
     }
     fn runs(&self, tier: Tier) -> u64 {
         match tier {
-            Tier::Quick => 12_000,
+            Tier::Quick => 120_000,
             Tier::Thorough => 1_500_000,
         }
     }
